@@ -133,6 +133,8 @@ def gen_ops(rng, cfg, nops):
         'direct_write': rng.uniform(0, 1),
         'misuse': rng.choice([0, 0, 0.3, 1.0]),
         'parfile': rng.choice([0, 0.4, 1.0]),
+        'update_repeat': rng.choice([0, 0.5, 1.5]),
+        'via_other': rng.choice([0, 0, 0.5, 1.5]),
     }
     kinds = sorted(w)
     weights = [w[k] for k in kinds]
@@ -172,6 +174,24 @@ def gen_ops(rng, cfg, nops):
                                                   'wrong_len_short',
                                                   'parfile_fit',
                                                   'parfile_derive'])])
+        elif k == 'update_repeat':
+            # the vector written last is written again (after whatever
+            # happened to the parameters in between)
+            ops.append([k])
+        elif k == 'via_other':
+            # a second optimizer attached to the same model and observation
+            # changes a setting (the tables are theirs, not the optimizer's)
+            n = rng.choice(names)
+            sub = rng.choice(['enable_fit', 'disable_fit', 'set_mode',
+                              'set_boundary'])
+            if sub in ('enable_fit', 'disable_fit'):
+                ops.append([k, sub, n])
+            elif sub == 'set_mode':
+                ops.append([k, sub, n, 'linear' if n in signed
+                            else rng.choice(['linear', 'log'])])
+            else:
+                ops.append([k, sub, n, _sbounds(rng) if n in signed
+                            else _bounds(rng)])
         elif k == 'parfile':
             # settings arrive through an input file's [Fitting]/[Derive]
             # sections (ParameterParser.setup_optimizer)
@@ -367,6 +387,8 @@ def execute(case, keep_text=False):
         out.bump('probes', 'real_model_run')
         c07_real.sync_ref_from_model(ref, model, obs)
     sig = []
+    last_vec = [None]
+    other = [None]
     dirty_since_compile = False
     fault_kinds = set()
     direct_since_compile = False
@@ -579,6 +601,7 @@ def execute(case, keep_text=False):
                 if direct_since_compile:
                     out.bump('probes', 'update_after_direct_write')
                 real_call(step, k, opt.update_model, vec)
+                last_vec[0] = (ref.ncompiles, list(vec))
                 out.bump('steps', 'updates')
                 fitted = set()
                 for c, v in zip(ref.compiled, vec):
@@ -595,6 +618,40 @@ def execute(case, keep_text=False):
                     fitted.add(c['name'])
                 check_values(step, 'update_model')
                 log.add('opt', 'update', vec)
+            elif k == 'update_repeat':
+                if last_vec[0] is None or last_vec[0][0] != ref.ncompiles \
+                        or ref.compiled is None:
+                    continue
+                vec = last_vec[0][1]
+                real_call(step, k, opt.update_model, vec)
+                out.bump('probes', 'same_vector_written_again')
+                for c, v in zip(ref.compiled, vec):
+                    want = M.ref_to_linear(c['is_log'], v)
+                    got = _get(ref, c['name'], model, obs)
+                    if not _close(got, want, 1e-13):
+                        viol('update-wrong-value', 'repeat',
+                             '%s: the same vector written again, parameter is '
+                             '%r, prior-transformed value is %r'
+                             % (c['name'], got, want), step)
+                        raise Stop()
+                    ref.values[c['name']] = got
+                check_values(step, 'update_repeat')
+            elif k == 'via_other':
+                if other[0] is None:
+                    from taurex.optimizer import Optimizer
+                    other[0] = Optimizer('verif-2', observed=obs, model=model)
+                sub, n = op[1], op[2]
+                if sub in ('enable_fit', 'disable_fit'):
+                    real_call(step, k, getattr(other[0], sub), n)
+                    ref.params[n]['fit'] = (sub == 'enable_fit')
+                elif sub == 'set_mode':
+                    real_call(step, k, other[0].set_mode, n, op[3])
+                    ref.params[n]['mode'] = op[3].lower()
+                else:
+                    real_call(step, k, other[0].set_boundary, n, list(op[3]))
+                    ref.params[n]['bounds'] = list(op[3])
+                out.bump('probes', 'setting_changed_by_second_optimizer')
+                dirty_since_compile = True
             elif k == 'direct_write':
                 _set(ref, op[1], model, obs, op[2])
                 got = _get(ref, op[1], model, obs)
